@@ -79,12 +79,12 @@ func c15() *core.Check {
 	quick := []Mix{
 		{Gen: "atoms", Dict: "htmlbytes0", K: 5},
 		{Gen: "atoms", Dict: "htmlfull0", K: 3},
-		{Gen: "f-corpus"}, {Gen: "f-seq", N: 300000}, {Gen: "f-mut", N: 300000}, {Gen: "f-g04", N: 300000},
+		{Gen: "f-corpus"}, {Gen: "f-seq", N: 300000}, {Gen: "f-mut", N: 300000}, {Gen: "f-g04", N: 300000}, {Gen: "f-bytetpl"},
 	}
 	thorough := []Mix{
 		{Gen: "atoms", Dict: "htmlbytes0", K: 6},
 		{Gen: "atoms", Dict: "htmlfull0", K: 4},
-		{Gen: "f-corpus"}, {Gen: "f-seq", N: 5000000}, {Gen: "f-mut", N: 5000000}, {Gen: "f-g04", N: 5000000},
+		{Gen: "f-corpus"}, {Gen: "f-seq", N: 5000000}, {Gen: "f-mut", N: 5000000}, {Gen: "f-g04", N: 5000000}, {Gen: "f-bytetpl"},
 	}
 	plan := func(tier string, seed uint64) []core.Unit {
 		mixes := quick
@@ -96,6 +96,8 @@ func c15() *core.Check {
 			switch m.Gen {
 			case "f-corpus":
 				us = append(us, gen.RangeUnits("f-corpus", uint64(len(gen.CorpusHTML())), 16, "")...)
+			case "f-bytetpl":
+				us = append(us, gen.RangeUnits("f-bytetpl", 256, 16, "")...)
 			case "f-seq", "f-mut", "f-g04":
 				us = append(us, gen.RangeUnits(m.Gen, m.N, 20000, "htmlfull")...)
 			default:
@@ -130,6 +132,15 @@ func c15() *core.Check {
 				genMix(htmlDomain, w, u2, f)
 			case "f-g04":
 				genC04(w, u, func(s, meta string) { f(core.Case{In: s}) })
+			case "f-bytetpl":
+				u2 := u
+				u2.Gen = "bytetpl"
+				// all three filter modes for every template instance
+				genMix(htmlDomain, w, u2, func(c core.Case) {
+					for k := 0; k < 3; k++ {
+						f(c)
+					}
+				})
 			}
 		},
 		One: func(w *core.Worker, c core.Case) {
